@@ -102,7 +102,11 @@ def _t01_regen(repo=None):
         lines.append(d[:900] if d else "(the generated definition is the baseline's: a callee or the model changed)")
     for k in sorted(blocked if cur else []):
         lines.append("NOT ATTEMPTED (uses a failed equality): %s" % by_coq.get(k, k))
-    still = [n for n in changed if cur.get(n, {}).get("coq") not in failed and cur.get(n, {}).get("coq") not in blocked
+    hash_only = [n for n in changed if n in cur and cur[n].get("status") == "translated"
+                 and not os.path.exists(os.path.join(coq, "theories", "Proofs", "TransEq_%s.v" % cur[n]["coq"]))]
+    if hash_only:
+        lines.append("changed, no equality proof exists (translated for change detection only): " + ", ".join(hash_only))
+    still = [n for n in changed if n not in hash_only and cur.get(n, {}).get("coq") not in failed and cur.get(n, {}).get("coq") not in blocked
              and cur.get(n, {}).get("status") == "translated" and n in base]
     if still:
         lines.append("changed but still proved equal to the model (SSA or the proof absorbed the rewrite): " + ", ".join(still))
